@@ -86,6 +86,11 @@ def gen_cases(rng, tier):
                 quant = -quant
             a = Fraction(x, y) * quant
             ops = [["quantfrac", rat(a), rat(quant), m, d]]
+            if rng.random() < .3:
+                # the same pair again with no explicit mode under two other
+                # configured defaults (in the same process)
+                for d2 in rng.sample(MODES, 2):
+                    ops.append(["quantfrac", rat(a), rat(quant), "-", d2])
             tag = "quantfrac"
         else:
             p = rng.randint(0, 6)
@@ -132,6 +137,10 @@ def gen_cases(rng, tier):
             if r < .62:
                 atok = rat(a) if rng.random() < .5 else "F:" + rat(a)
                 ops.append(["q_quantize", f"{atok}@{u}", f"{rat(quant)}@{v}", m, d])
+                if rng.random() < .3:
+                    # again without explicit mode under another configured default
+                    ops.append(["q_quantize", f"{atok}@{u}", f"{rat(quant)}@{v}", "-",
+                                rng.choice([x for x in MODES if x != d])])
                 if rng.random() < .5:
                     # the same value in the other representation
                     other = "F:" + rat(a) if not atok.startswith("F:") else rat(a)
